@@ -1,7 +1,7 @@
 """C18 — address helpers: decided structural clauses (DESIGN.md §5 C18)."""
 from vlib import q
 from vlib.cfg import cfg_of
-from vlib.prov import peel, fmt, is_param, contains, alts, leaves, is_param_field
+from vlib.prov import peel, fmt, is_param, contains, alts, leaves, is_param_field, same_origin
 
 LEVEL = "other"
 LEVEL_TEXT = (
@@ -98,6 +98,41 @@ def _self_prefix(o):
     return contains(o, lambda x: x[0] == "field" and x[2] == "prefix" and is_param(x[1], "self"))
 
 
+def _parsed_prefix_fields(cfg):
+    """fields of MockApiBech that always hold `Hrp::parse(prefix)` of the same value (a prefix parsed once at construction
+    instead of at every use): every place the struct is built sets the field to `Hrp::parse(<what it sets prefix to>)`, and no
+    code assigns to either field afterwards"""
+    F, P = cfg.facts, cfg.prov
+    if getattr(F, "_c18_parsed", None) is not None:
+        return F._c18_parsed
+    cand = None
+    for g in F.user_fns():
+        for b, i, st in g.stmts():
+            if st["k"] != "assign":
+                continue
+            if any(e["k"] == "field" and e.get("of") == "api::MockApiBech" for e in st["dst"]["p"]):
+                cand = set()            # a field of the struct is written after construction: no invariant
+                break
+            rv = st["rv"]
+            if rv.get("k") == "aggregate" and rv.get("adt") == "api::MockApiBech":
+                o = peel(P.rvalue(g, rv, (b, i)))
+                d = dict(o[2])
+                here = {fl for fl, v in d.items() if fl != "prefix" and peel(v)[0] == "call" and peel(v)[1] == "bech32::Hrp::parse" and
+                        "prefix" in d and same_origin(peel(peel(v)[2][0]), peel(d["prefix"]))}
+                cand = here if cand is None else cand & here
+        if cand == set():
+            break
+    F._c18_parsed = cand or set()
+    return F._c18_parsed
+
+
+def _own_hrp(cfg, o):
+    """`o` is this Api's prefix parsed as an Hrp: `Hrp::parse(self.prefix)` on the spot, or the field that holds it"""
+    fields = _parsed_prefix_fields(cfg)
+    return contains(o, lambda x: (x[0] == "call" and x[1] == "bech32::Hrp::parse" and _self_prefix(x[2][0])) or
+                    (x[0] == "field" and x[2] in fields and is_param(x[1], "self")))
+
+
 def r2(ctx, cfg):
     F, P = cfg.facts, cfg.prov
     R = "C18.R2"
@@ -116,6 +151,8 @@ def r2(ctx, cfg):
                               and is_param(peel(c[1])[2][0], "input") for e, c in conds)
                 def _is_hrp(x):
                     x = peel(x)
+                    if x[0] == "call" and x[1] == "bech32::Hrp::as_str" and len(x[2]) == 1:
+                        x = peel(x[2][0])       # (the same characters as `to_string()`, borrowed: case kept)
                     return x[0] == "call" and x[1].endswith("CheckedHrpstring::hrp")
 
                 def _is_own_prefix(x):
@@ -141,7 +178,7 @@ def r2(ctx, cfg):
         ok = len(enc) == 1
         if ok:
             a = P.call_args(f, enc[0][1], enc[0][0])
-            ok = contains(a[0], lambda x: x[0] == "call" and x[1] == "bech32::Hrp::parse" and _self_prefix(x[2][0])) and is_param(a[1], "canonical")
+            ok = _own_hrp(cfg, a[0]) and is_param(a[1], "canonical")
         ctx.ob(R, key, "encode(parse(self.prefix), canonical)", ok, "addr_humanize does not encode the canonical bytes under its own prefix", fn=f,
                sample="encode::<T>(Hrp::parse(self.prefix)?, canonical)")
 
@@ -182,12 +219,13 @@ def r4(ctx, cfg):
     if ok:
         a = P.call_args(f, enc[0][1], enc[0][0])
         d = "encode(%s, %s)" % (fmt(a[0])[:60], fmt(a[1])[:60])
-        ok = contains(a[0], lambda x: x[0] == "call" and x[1] == "bech32::Hrp::parse" and _self_prefix(x[2][0])) and \
+        ok = _own_hrp(cfg, a[0]) and \
             contains(a[1], lambda x: x[0] == "call" and x[1].endswith("Digest::digest") and is_param(x[2][0], "input"))
         lv = {x[2] for x in leaves(a[1]) if x[0] == "param"}
         ok = ok and lv == {"input"}
     ctx.ob(R, key, "address=encode(parse(self.prefix), sha256(input))", ok, "addr_make builds %s" % d, fn=f, sample=d)
     ret = P.ret(f)
     names = {x[2] for x in leaves(ret) if x[0] == "param"}
-    ctx.ob(R, key, "depends-only-on(name, prefix)", names == {"self", "input"} and not contains(ret, lambda x: x[0] == "field" and is_param(x[1], "self") and x[2] not in ("prefix",)),
+    ctx.ob(R, key, "depends-only-on(name, prefix)", names == {"self", "input"} and not contains(ret, lambda x: x[0] == "field" and is_param(x[1], "self") and
+                                                                                                   x[2] not in ({"prefix"} | _parsed_prefix_fields(cfg))),
            "addr_make depends on %s" % sorted(names), fn=f, sample="input, self.prefix")
